@@ -64,6 +64,17 @@ struct CObj : public metatype {
 	uintptr_t addref() override { Harness h; return (uintptr_t) ++refs; }
 	metatype *clone() const override { return 0; }
 };
+// a value that cannot be shared (as the library's small text metatypes): it has one owner, a copy of the item must do without it
+struct UObj;
+static std::set<UObj *> g_uobj_live;
+struct UObj : public metatype {
+	uint32_t nr;
+	explicit UObj(uint32_t n) : nr(n) { g_uobj_live.insert(this); }
+	int convert(type_t t, void *ptr) override { if (t == TypeMetaPtr) { if (ptr) *(metatype **) ptr = this; return 0; } return BadType; }
+	void unref() override { Harness h; if (!g_uobj_live.erase(this)) pend("double-destroy", "the unshareable value of item %u was released twice", nr); }      // (the memory stays until the run ends)
+	uintptr_t addref() override { return 0; }
+	metatype *clone() const override { return 0; }
+};
 // active commands: finalising one calls its function with a null event, exactly once
 // a config item as the C side lays it out (the C++ class hides the members behind its bases)
 struct CItem { buffer *elements; metatype *value; identifier id; };
@@ -619,7 +630,10 @@ struct ArraysWorld : World {
 		static const char *const btname[] = {"identifier", "array", "config item", "command"};
 		CObj cobj0(0), cobj1(1), cobj2(2); CObj *cobj[3] = {&cobj0, &cobj1, &cobj2};
 		g_cmd_live.clear();
-		auto item_obj = [&](uint32_t v) -> CObj * { return (v && (v % 4)) ? cobj[v % 3] : 0; };
+		auto item_unshareable = [&](uint32_t v) { return v && v % 7 == 3; };
+		auto item_obj = [&](uint32_t v) -> CObj * { return (v && (v % 4) && !item_unshareable(v)) ? cobj[v % 3] : 0; };
+		std::vector<UObj *> uobjs; g_uobj_live.clear();
+		struct Cu { std::vector<UObj *> *v; ~Cu() { for (UObj *u : *v) delete u; } } cu{&uobjs};
 		bool fault_seen = false;      // after an allocation fault an item may have lost its name (the copy constructor ignores that): names and values are no longer compared, ownership still is
 		CArr B[3] = {{0}, {0}, {0}}; std::vector<uint32_t> MB[3];
 		struct Cl { CArr *b; ~Cl() { for (int i = 0; i < 3; ++i) b[i].buf = 0; } } cl{B};
@@ -630,7 +644,8 @@ struct ArraysWorld : World {
 		log.ev("arrays kind=builtin elements=%s (element size %zu)", btname[bt], es);
 		st.hit(bt == 1 ? "kind:builtin_array_elements" : bt == 2 ? "kind:builtin_config_item_elements" : bt == 3 ? "kind:builtin_command_elements" : "kind:builtin_identifier_elements");
 		uint32_t next = 1;
-		auto name_of = [&](uint32_t v) -> std::string { if (!v) return ""; char b[64]; if (v & 1) snprintf(b, sizeof b, "n%u", v); else snprintf(b, sizeof b, "a-long-name-that-needs-its-own-allocation-%u", v); return b; };
+		// names: odd numbers get short names of every length from 2 to 19 characters (around the inline capacity of an identifier), even ones a name that needs an allocation
+		auto name_of = [&](uint32_t v) -> std::string { if (!v) return ""; char b[64]; if (v & 1) { snprintf(b, sizeof b, "n%u", v); std::string n = b; size_t want = 2 + (v / 2) % 18; while (n.size() < want) n.push_back('x'); return n; } snprintf(b, sizeof b, "a-long-name-that-needs-its-own-allocation-%u", v); return b; };
 		// a value: identifiers 1.. (odd = inline name, even = allocated name); arrays 1..4 = inner buffer, 0 = empty element in both
 		// config items: value = name (as for identifiers) + a counted value object chosen by the number; commands: 0 = inactive, otherwise an active command with that token
 		auto fresh_val = [&]() -> uint32_t { return bt == 1 ? 1 + (next++ % 4) : next++; };
@@ -645,14 +660,14 @@ struct ArraysWorld : World {
 		};
 		auto make = [&](uint8_t *e, uint32_t v) {      // harness-built source element
 			if (bt == 1) { array *a = (array *) e; *reinterpret_cast<buffer **>(a) = 0; if (v) { Sut s; mpt_array_clone(a, AR(inner[v - 1])); } }
-			else if (bt == 2) { CItem *it = (CItem *) e; { Sut s; tr->init(e, 0); } if (v) { std::string n = name_of(v); Sut s; if (!mpt_identifier_set(&it->id, n.c_str(), (int) n.size())) fail("setup", "source item name"); CObj *o = item_obj(v); if (o) { o->addref(); it->value = o; } } }
+			else if (bt == 2) { CItem *it = (CItem *) e; { Sut s; tr->init(e, 0); } if (v) { std::string n = name_of(v); Sut s; if (!mpt_identifier_set(&it->id, n.c_str(), (int) n.size())) fail("setup", "source item name"); CObj *o = item_obj(v); if (o) { o->addref(); it->value = o; } else if (item_unshareable(v)) { UObj *u = new UObj(v); uobjs.push_back(u); it->value = u; } } }
 			else if (bt == 3) { command *c = (command *) e; memset((void *) c, 0, sizeof(*c)); if (v) { c->id = v; c->cmd = cmd_token_fn; c->arg = (void *) (uintptr_t) v; g_cmd_live.insert(v); } }
 			else { identifier *id = (identifier *) e; mpt_identifier_init(id, es); if (v) { std::string n = name_of(v); Sut s; if (!mpt_identifier_set(id, n.c_str(), (int) n.size())) fail("setup", "source identifier"); } }
 		};
 		auto assign = [&](uint8_t *e, uint32_t v) {    // overwrite a live element in place, the way a user of the private buffer does
 			if (bt == 1) { Sut s; mpt_array_clone((array *) e, v ? AR(inner[v - 1]) : 0); }
 			else if (bt == 2) { CItem *it = (CItem *) e; std::string n = name_of(v); Sut s; mpt_identifier_set(&it->id, v ? n.c_str() : 0, (int) n.size());
-				CObj *o = item_obj(v); if (o) o->addref(); if (it->value) it->value->unref(); it->value = o;
+				metatype *o = item_obj(v); if (o) o->addref(); else if (item_unshareable(v)) { UObj *u = new UObj(v); uobjs.push_back(u); o = u; } if (it->value) it->value->unref(); it->value = o;
 				// every fifth item also gets (or loses) a sub-item that holds a value of its own: finalising the item must finalise it too
 				if (v % 5 == 0) { if (it->elements) mpt_array_clone((array *) &it->elements, 0); else { uint8_t child[64]; tr->init(child, 0); ((CItem *) child)->value = cobj[v % 3]; cobj[v % 3]->addref(); mpt_array_set((array *) &it->elements, tr, es, child, 0); tr->fini(child); } } }
 			else if (bt == 3) { command *c = (command *) e; { Sut s; tr->fini(e); } memset((void *) c, 0, sizeof(*c)); if (v) { c->id = v; c->cmd = cmd_token_fn; c->arg = (void *) (uintptr_t) v; g_cmd_live.insert(v); } }
@@ -662,7 +677,8 @@ struct ArraysWorld : World {
 			if (bt == 1) { buffer *b = *reinterpret_cast<buffer * const *>(e); if (!b) return 0; for (int k = 0; k < 4; ++k) if (inner[k].buf == b) return (uint32_t) k + 1;
 				fail("wrong-content", "after %s: element %zu of handle %d refers to a buffer nobody put there", after, i, h); }
 			if (bt == 2) { const CItem *it = (const CItem *) e; uint32_t v = parse_name(&it->id, after, h, i);
-				if (v && it->value != item_obj(v)) { if (!fault_seen) fail("wrong-content", "after %s: item %zu of handle %d is named for value %u but holds another value object", after, i, h, v); }
+				if (v && item_unshareable(v)) { bool mine = false; for (UObj *u : uobjs) if (u == it->value && u->nr == v) mine = true; if (it->value && !mine && !fault_seen) fail("wrong-content", "after %s: item %zu of handle %d is named for the unshareable value %u but holds something else", after, i, h, v); }
+				else if (v && it->value != item_obj(v)) { if (!fault_seen) fail("wrong-content", "after %s: item %zu of handle %d is named for value %u but holds another value object", after, i, h, v); }
 				if (!v && it->value && !fault_seen) fail("wrong-content", "after %s: unnamed item %zu of handle %d holds a value object", after, i, h);
 				return v; }
 			if (bt == 3) { const command *c = (const command *) e; if (!c->cmd) return 0; if (c->cmd != cmd_token_fn) fail("wrong-content", "after %s: command %zu of handle %d has a function nobody set", after, i, h);
@@ -670,18 +686,22 @@ struct ArraysWorld : World {
 			return parse_name((const identifier *) e, after, h, i);
 		};
 		// ownership: what the elements of all (distinct) buffers hold is exactly what the counted objects and the set of active commands say
+		std::map<UObj *, int> uheld;
 		std::function<void(const buffer *, long *)> count_items = [&](const buffer *b, long *cnt) {
 			size_t n = b ? b->_used / es : 0;
 			for (size_t i = 0; i < n; ++i) { const CItem *it = (const CItem *) ((const uint8_t *) (b + 1) + i * es);
 				for (int k = 0; k < 3; ++k) if (it->value == cobj[k]) ++cnt[k];
+				if (it->value) for (UObj *u : uobjs) if (u == it->value) ++uheld[u];
 				count_items(it->elements, cnt); }
 		};
 		auto audit = [&](const char *after) {
 			check_pending();
 			std::set<const buffer *> seen;
 			if (bt == 2) {
-				long cnt[3] = {0, 0, 0};
+				long cnt[3] = {0, 0, 0}; uheld.clear();
 				for (int h = 0; h < 3; ++h) if (B[h].buf && seen.insert(B[h].buf).second) count_items(B[h].buf, cnt);
+				for (auto &e : uheld) { if (e.second > 1) fail("double-destroy", "after %s: the unshareable value of item %u is held by %d items (each will release it)", after, e.first->nr, e.second); if (!g_uobj_live.count(e.first)) fail("double-destroy", "after %s: the unshareable value of item %u is still held by an item but was released already", after, e.first->nr); }
+				for (UObj *u : g_uobj_live) if (!uheld.count(u)) fail("element-leak", "after %s: the unshareable value of item %u is held by no item any more but was never released", after, u->nr);
 				for (int k = 0; k < 3; ++k) if (cobj[k]->refs != 1 + cnt[k]) fail(cobj[k]->refs > 1 + cnt[k] ? "element-leak" : "double-destroy", "after %s: value object %d counts %ld references, the items of all buffers hold %ld (+1 for the harness)", after, k, cobj[k]->refs, cnt[k]);
 			}
 			if (bt == 3) {
